@@ -36,7 +36,7 @@ class Store:
         T = TIR(eng)
         s.refs = [utxo_ref(T, [0xC0 + i] * 32, 0) for i in range(n)]
         s.addr = [ctx.sym_int("utxo%d.addr" % i, "u8") for i in range(n)]
-        bits = 16 if ctx.tier == "quick" else 40
+        bits = getattr(ctx, "amount_bits", None) or (16 if ctx.tier == "quick" else 40)
         s.bits = bits
         s.ada = [ctx.sym_amount("utxo%d.lovelace" % i, bits) for i in range(n)]
         s.has_tok = [ctx.sym_bool("utxo%d.has_token" % i) for i in range(n)]
@@ -211,16 +211,20 @@ def check_selection(ctx, store, res, addr_kind, ref_kind, q_ada, q_tok, many, co
     return res
 
 
-def h_select(ctx, tier, seed, n=2, addr_kinds=(0, 1, 2), ref_kinds=(0, 1, 2)):
+def h_select(ctx, tier, seed, n=2, addr_kinds=(0, 1, 2), ref_kinds=(0, 1, 2), fixed=None, bits=None):
     eng = ctx.eng
+    if bits and tier == "quick":
+        ctx.amount_bits = bits
     store = Store(ctx, n)
     store.install(eng)
     addr_kind = addr_kinds[eng.choose(len(addr_kinds), "query address")]
     ref_kind = ref_kinds[eng.choose(len(ref_kinds), "query ref")]
-    want_ada = eng.choose(2, "lovelace requested") == 1
-    want_tok = eng.choose(2, "token requested") == 1
-    many = eng.choose(2, "many") == 1
-    collateral = eng.choose(2, "collateral") == 1
+    fixed = fixed or {}
+    pick = lambda k, what: fixed[k] if k in fixed else (eng.choose(2, what) == 1)
+    want_ada = pick("want_ada", "lovelace requested")
+    want_tok = pick("want_tok", "token requested")
+    many = pick("many", "many")
+    collateral = pick("collateral", "collateral")
     iq, q_ada, q_tok = build_query(ctx, store, addr_kind, ref_kind, want_ada, want_tok, many, collateral)
     try:
         res, _ = run_selection(ctx, store, iq)
@@ -260,6 +264,11 @@ for ak in (0, 1, 2):
         HARNESSES.append(_h("c03_n2_%s_%s" % (AK[ak], RK[rk]), _mk(2, ak, rk),
                             "store of 2 UTxOs (address tag, lovelace, token presence and amount symbolic); query %s / %s; %s" % (AK[ak], RK[rk], Q),
                             max_paths=400000, time_limit=1200))
+# three candidates in the quick tier for the multi-UTxO accumulation and trimming steps (which need >= 3 UTxOs to differ from n = 2)
+HARNESSES.append(_h("c03_n3_many_lovelace", lambda ctx, tier, seed: h_select(ctx, tier, seed, 3, addr_kinds=(1,), ref_kinds=(0,), fixed=dict(want_ada=True, want_tok=False, many=True, collateral=False), bits=6),
+                    "store of 3 UTxOs; query fromA / noref, many, lovelace threshold symbolic; amounts below 2^6 (quick) / 2^40 (thorough); every candidate order", max_paths=400000, time_limit=1200))
+HARNESSES.append(_h("c03_n3_many_token", lambda ctx, tier, seed: h_select(ctx, tier, seed, 3, addr_kinds=(1,), ref_kinds=(0,), fixed=dict(want_ada=False, want_tok=True, many=True, collateral=False), bits=6),
+                    "store of 3 UTxOs; query fromA / noref, many, token threshold symbolic; amounts below 2^6 (quick) / 2^40 (thorough); every candidate order", max_paths=400000, time_limit=1200))
 for ak, rk in ((1, 0), (0, 0), (0, 1), (1, 1)):
     HARNESSES.append(_h("c03_n3_%s_%s" % (AK[ak], RK[rk]), _mk(3, ak, rk),
                         "store of 3 UTxOs; query %s / %s; %s" % (AK[ak], RK[rk], Q), tier="thorough", max_paths=2000000, time_limit=3000))
